@@ -31,6 +31,12 @@ structure CSt where
   ambUntil : Nat := 0
   forcedAmb : Bool := false
   dueFrom : Int := 0
+  dispAt : Int := 0                -- clock of the earliest dispatch whose helper is still outstanding
+  foreignRs : Bool := true         -- a harness operation (not the scheduler's own machinery) may have written next_check since then
+  snInFlight : Bool := false       -- a harness SetNextCheck-like operation is between its `ob` and `oe`
+  snLanded : Bool := false         -- … and the re-index caused by its write has been seen
+  snValue : Int := 0
+  lastSkipAt : Option Int := none  -- the scheduler skipped this checkable at that clock and nobody but its own machinery wrote next_check since
   deriving Inhabited
 
 structure DSt where
@@ -56,6 +62,8 @@ structure DSt where
   exitNotIdle : Nat := 0       -- a process finished while its checkable was not idle (paused / dispatched again)
   counterOverMax : Nat := 0    -- dispatch-time states in which the counter exceeded max (helper unit + plugin unit)
   windows : Nat := 0
+  skipRearms : Nat := 0        -- decisions on an entry that had been skipped before: its key was checked against the skip's clock
+  rearms : Nat := 0            -- returned execution attempts whose next_check was checked against the dispatch time
   objs : Nat := 0
   reindex : Nat := 0
   erasedPending : Nat := 0     -- ObjectHandler removed a checkable that was pending (pause/deactivate during a check)
@@ -194,13 +202,16 @@ def handleSched (d : DSt) (n : Nat) (kind : String) (c : Nat) (args obs : List S
     IO.println s!"BADLINE line={n}"; return d
   let cst := d.cs.getD c {}
   match kind, args, obs with
-  | "ob", opk :: _, _ =>
-    if opk == "setnext" then return { d with ops := d.ops + 1 }
+  | "ob", opk :: rest, _ =>
+    if opk == "setnext" then
+      -- somebody other than the scheduler's machinery writes next_check (any value, also the past)
+      let v := ((rest.head?) >>= parseInt?).getD 0
+      return { setM d c (fun cs => { cs with foreignRs := true, snInFlight := true, snLanded := false, snValue := v, lastSkipAt := none }) with ops := d.ops + 1 }
     let d := { setM d c (fun cs => { cs with op := some opk, wroteActive := false, wrotePaused := false }) with ops := d.ops + 1 }
     -- an operation that changes active/paused is under way: the specification suspends its claims about `c`
     if opk == "notify" then return d else spec d n c [.opBegin c]
   | "oe", opk :: _, _ =>
-    if opk == "setnext" then return d
+    if opk == "setnext" then return setM d c fun cs => { cs with snInFlight := false }
     -- every handler call of the operation has returned (with or without a logged section)
     let d := setM d c fun cs => let cs := applyWrites cs; { cs with m := { cs.m with synced := true }, op := none }
     -- … and from now on `c` is / is not this node's to schedule, as the harness's own operations imply
@@ -240,13 +251,19 @@ def handleSched (d : DSt) (n : Nat) (kind : String) (c : Nat) (args obs : List S
         match cst.reschedAt with
         | some t => d := { d with wakeDelays := d.wakeDelays.push (now - t), reschedUnanswered := d.reschedUnanswered + 1 }
         | none => pure ()
+      if cst.snInFlight && key == cst.snValue then d := setM d c fun cs => { cs with snLanded := true }
       d := setM d c fun cs => { cs with dueFrom := max key now,
                                         reschedAt := if d.wakeupResched && key ≤ now then some now else none }
       if !cst.m.inIdle then
         d ← mismatch d n "nc-not-idle" c s!"{showBool i},{showBool p}" (showLoc cst.m)
-      match act d (.setNextCheck c key) c with
+      -- the write behind this re-index: a harness operation's (any value), or the scheduler's own machinery's UpdateNextCheck (a value
+      -- after the clock it read, which was not before the dispatch)
+      match (if cst.snInFlight then none else act d (.ownResched c (key - 1) key) c) with
       | some d' => d := d'
-      | none => pure ()
+      | none =>
+        match act d (.setNextCheck c key) c with
+        | some d' => d := d'
+        | none => pure ()
       match act d (.nextCheckChanged c) c with
       | some d' => d := d'
       | none => pure ()
@@ -301,16 +318,26 @@ def handleSched (d : DSt) (n : Nat) (kind : String) (c : Nat) (args obs : List S
           d := { d with noWakeupCand := some (n, c, lateness, now - d.silentFinNow) }
       if d.wakeup && !d.wakeupResched && d.silentFinNow > d.lastSchedNow then d := { d with wakeDelays := d.wakeDelays.push (now - d.silentFinNow) }
       d := { d with lastSchedNow := now }
+      -- first outstanding dispatch: from here on only the scheduler's own machinery writes next_check, unless a harness operation is
+      -- under way whose write has not been seen yet
+      if isPick && cst.m.helpers == 0 then
+        d := setM d c fun cs => { cs with dispAt := now, foreignRs := cs.snInFlight && !cs.snLanded }
+      -- the skip path re-arms too (checkercomponent.cpp:178-196: UpdateNextCheck before the scheduler looks again): an entry that was
+      -- skipped and is taken again under a key not after that skip was not re-armed - the scheduler spins on it
+      match cst.lastSkipAt with
+      | some t => d ← spec { d with skipRearms := d.skipRearms + 1 } n c [.rearmed c t cst.m.idleKey]
+      | none => pure ()
+      d := setM d c fun cs => { cs with lastSkipAt := if isPick || cs.snInFlight then none else some now }
       let modelSkips := Chk.skipsIn (d.cs.getD c {}).m.forced inp
       if modelSkips == isPick then
         d ← mismatch d n "decision" c (if isPick then "dispatch" else "skip") (if modelSkips then "skip" else "dispatch")
         -- follow the implementation
-        d := setM d c fun cs => { cs with m := if isPick then cs.m.pick else cs.m.skip }
+        d := setM d c fun cs => { cs with m := if isPick then cs.m.pick now else cs.m.skip }
         if isPick then d := { d with counter := d.counter + 1 }
       else
         match act d (.sched c now inp) c with
         | some d' => d := d'
-        | none => d := setM d c fun cs => { cs with m := if isPick then cs.m.pick else cs.m.skip }
+        | none => d := setM d c fun cs => { cs with m := if isPick then cs.m.pick now else cs.m.skip }
       d ← compareLoc d n kind c i p key
       if isPick then
         d := setM d c fun cs =>
@@ -338,9 +365,15 @@ def handleSched (d : DSt) (n : Nat) (kind : String) (c : Nat) (args obs : List S
     if cst.m.running != busy then
       d ← mismatch d n "guard" c (if busy then "busy" else "free") (if cst.m.running then "busy" else "free")
       d := setM d c fun cs => { cs with m := { cs.m with running := busy } }
+    -- ExecuteCheck's early UpdateNextCheck comes first in the model; its value is not observed at this point (the property is checked
+    -- on the implementation's own next_check when the attempt has come back, `dec`), so the model's next_check is left as it was
+    let nxBefore := cst.m.nextCheck
+    match act d (.rearm c cst.m.dispatchedAt (cst.m.dispatchedAt + 1)) c with
+    | some d' => d := setM d' c fun cs => { cs with m := { cs.m with nextCheck := nxBefore } }
+    | none => pure ()
     match act d (.helperGuard c) c with
     | some d' => d := d'
-    | none => d ← mismatch d n "guard-without-helper" c "-" "hq=0"
+    | none => d ← mismatch d n "guard-without-helper" c "-" "hu=0"
     d := setM d c fun cs => { cs with guardsN := cs.guardsN + 1 }
     if busy then d := { d with busy := d.busy + 1, caseBusy := d.caseBusy + 1 }
     return d
@@ -373,10 +406,16 @@ def handleSched (d : DSt) (n : Nat) (kind : String) (c : Nat) (args obs : List S
     match act d (.procExit c) c with
     | some d => return d
     | none => mismatch d n "process-exit-without-process" c "-" "procs=0"
-  | "dec", _, _ =>
-    match act d (.helperDec c) c with
-    | some d => return d
-    | none => mismatch d n "dec-without-returned-helper" c "-" "hr=0"
+  | "dec", _, obs =>
+    let d ← (match act d (.helperDec c) c with
+      | some d => pure d
+      | none => mismatch d n "dec-without-returned-helper" c "-" "hr=0")
+    -- the property on the implementation's own next_check: the attempt has come back, the next check lies after its dispatch
+    match obs.map parseInt? with
+    | [some nx, some _] =>
+      if cst.foreignRs then return d
+      else spec { d with rearms := d.rearms + 1 } n c [.rearmed c cst.dispAt nx]
+    | _ => return d
   | "fin", _, [i, p, key, now] =>
     match parseBool? i, parseBool? p, parseInt? key, parseInt? now with
     | some i, some p, some key, some now =>
@@ -470,8 +509,8 @@ def handle (d : DSt) (n : Nat) (line : String) : IO DSt := do
         let mut d := { d with quiescent := d.quiescent + 1 }
         if x.schedulable != s then
           d ← mismatch d n "quiescent-attributes" c (showBool s) (showBool x.schedulable)
-        if x.hq + x.hx + x.hs + x.hr + x.hd + x.procs + x.pz != 0 || x.pbal != 0 then
-          d ← mismatch d n "quiescent-helpers-left" c "0" s!"{x.hq},{x.hx},{x.hs},{x.hr},{x.hd},{x.procs},{x.pz},{x.pbal}"
+        if x.hq + x.hu + x.hx + x.hs + x.hr + x.hd + x.procs + x.pz != 0 || x.pbal != 0 then
+          d ← mismatch d n "quiescent-helpers-left" c "0" s!"{x.hq},{x.hu},{x.hx},{x.hs},{x.hr},{x.hd},{x.procs},{x.pz},{x.pbal}"
         d ← compareLoc d n "quiescent" c i p key
         spec d n c [.quiescent c s i p key nx]
       | _, _, _, _, _ => IO.println s!"BADLINE line={n}"; return d
@@ -554,7 +593,7 @@ def main : IO Unit := do
       d := { d with specfails := d.specfails + d.liveCands.size }
     else d := { d with livenessInconclusive := d.liveCands.size }
   IO.println (s!"STATS cases={d.cases} sched_cases={d.schedCases} steps={d.steps} arith={d.arith} arith_adjusted={d.arithAdj} " ++
-    s!"picks={d.picks} forced_picks={d.forcedPicks} skips={d.skips} guard_busy={d.busy} execs={d.execs} async_execs={d.asyncExecs} exit_before_plugin_inc={d.exitBeforeInc} exit_while_not_idle={d.exitNotIdle} counter_over_max={d.counterOverMax} windows={d.windows} " ++
+    s!"picks={d.picks} forced_picks={d.forcedPicks} skips={d.skips} guard_busy={d.busy} execs={d.execs} async_execs={d.asyncExecs} exit_before_plugin_inc={d.exitBeforeInc} exit_while_not_idle={d.exitNotIdle} counter_over_max={d.counterOverMax} windows={d.windows} rearm_checked={d.rearms} skip_rearm_checked={d.skipRearms} " ++
     s!"object_sections={d.objs} reindex={d.reindex} erased_while_pending={d.erasedPending} finish_found_gone={d.finDropped} " ++
     s!"ops={d.ops} forces={d.forces} force_ambiguous={d.forceAmb} quiescent={d.quiescent} " ++
     s!"lat_lt1ms={d.lat1ms} lat_lt10ms={d.lat10ms} lat_lt100ms={d.lat100ms} lat_lt1s={d.lat1s} lat_ge1s={d.latMore} lat_max_us={d.latMaxUs} " ++
